@@ -14,6 +14,10 @@ E(cs) == [enum |-> <<St(cs)>>]
 O(pk, ps) == [type |-> "object", pk |-> pk, ps |-> ps]
 EmptyObj == Obj(<<>>, <<>>)
 
+DBranches == <<O(<<"a", "k">>, <<I(20), E(<<"p">>)>>) @@ [required |-> <<"k">>],
+               O(<<"c", "k">>, <<SD(<<"x">>), E(<<"q">>)>>) @@ [required |-> <<"k">>],
+               O(<<"b", "k">>, <<SD(<<"y">>), E(<<"r">>)>>) @@ [required |-> <<"k">>]>>
+
 Schemas == [
   B1 |-> O(<<"a", "b">>, <<I(20), [type |-> "string"]>>),
   B2 |-> O(<<"o">>, <<O(<<"z">>, <<I(12)>>)>>),
@@ -32,7 +36,27 @@ Schemas == [
   B11 |-> [allOf |-> <<O(<<"a">>, <<I(20)>>)>>,
            anyOf |-> <<O(<<"c", "k">>, <<SD(<<"x">>), E(<<"p">>)>>) @@ [required |-> <<"k">>], O(<<"k">>, <<E(<<"q">>)>>) @@ [required |-> <<"k">>]>>],
   \* strings only (what every form encoding can carry without a typing question)
-  B12 |-> O(<<"b", "c">>, <<[type |-> "string"], SD(<<"x">>)>>)
+  B12 |-> O(<<"b", "c">>, <<[type |-> "string"], SD(<<"x">>)>>),
+  \* oneOf with a discriminator and an explicit mapping (dmap: the branches are components, keys[i] maps to branch i): the mapping
+  \* designates the branch; each branch has its own default.  The branches tell the values apart by themselves (enum on the
+  \* discriminating property), so that "exactly one branch matches" and "the mapped branch matches" are the same judgement.
+  B13 |-> [oneOf |-> DBranches, dmap |-> [pn |-> "k", keys |-> <<"p", "q", "r">>]]
+]
+(* further schemas, crossed with fewer dimensions (XCases) *)
+XSchemas == [
+  \* a discriminator without a mapping / the discriminated oneOf under array items and under a property
+  B15 |-> [oneOf |-> DBranches, dmap |-> [pn |-> "k", keys |-> <<>>]],
+  B16 |-> O(<<"l">>, <<[type |-> "array", items |-> [oneOf |-> DBranches, dmap |-> [pn |-> "k", keys |-> <<"p", "q", "r">>]]]>>),
+  B17 |-> O(<<"o">>, <<[oneOf |-> DBranches, dmap |-> [pn |-> "k", keys |-> <<"p", "q", "r">>]]>>),
+  \* a form with an array field next to a field with a default
+  B18 |-> O(<<"c", "l">>, <<SD(<<"x">>), [type |-> "array", items |-> TInt]>>)
+]
+K(x) == Obj(<<"k">>, <<St(<<x>>)>>)
+XBodies == [
+  B15 |-> {K("p"), K("q"), K("r"), Obj(<<"a", "k">>, <<Num(4), St(<<"r">>)>>)},
+  B16 |-> {Obj(<<"l">>, <<Arr(<<K("q"), K("p"), K("r")>>)>>), Obj(<<"l">>, <<Arr(<<K("r")>>)>>), Obj(<<"l">>, <<Arr(<<>>)>>)},
+  B17 |-> {Obj(<<"o">>, <<K("q")>>), Obj(<<"o">>, <<K("r")>>), EmptyObj},
+  B18 |-> {Obj(<<"l">>, <<Arr(<<Num(4), Num(8)>>)>>), Obj(<<"c", "l">>, <<St(<<"y">>), Arr(<<Num(4), Num(8)>>)>>)}
 ]
 
 Bodies == [
@@ -49,7 +73,9 @@ Bodies == [
   B9 |-> {EmptyObj, Obj(<<"b">>, <<Num(4)>>), Obj(<<"a", "b">>, <<Num(400), Num(4)>>)},
   B10 |-> {Obj(<<"k">>, <<St(<<"p">>)>>), Obj(<<"k">>, <<St(<<"q">>)>>), Obj(<<"a", "k">>, <<Num(4), St(<<"p">>)>>), Obj(<<"k">>, <<St(<<"z">>)>>)},
   B11 |-> {Obj(<<"k">>, <<St(<<"p">>)>>), Obj(<<"k">>, <<St(<<"q">>)>>), Obj(<<"a", "k">>, <<Num(4), St(<<"p">>)>>), Obj(<<"k">>, <<St(<<"z">>)>>)},
-  B12 |-> {EmptyObj, Obj(<<"b">>, <<St(<<"s">>)>>), Obj(<<"c">>, <<St(<<"y">>)>>), Obj(<<"b", "c">>, <<St(<<"s">>), St(<<"y">>)>>)}
+  B12 |-> {EmptyObj, Obj(<<"b">>, <<St(<<"s">>)>>), Obj(<<"c">>, <<St(<<"y">>)>>), Obj(<<"b", "c">>, <<St(<<"s">>), St(<<"y">>)>>)},
+  B13 |-> {Obj(<<"k">>, <<St(<<"p">>)>>), Obj(<<"k">>, <<St(<<"q">>)>>), Obj(<<"k">>, <<St(<<"r">>)>>), Obj(<<"k">>, <<St(<<"z">>)>>),
+           Obj(<<"a", "k">>, <<Num(4), St(<<"q">>)>>), EmptyObj}
 ]
 
 Secs == {"none", "pass_ignore", "pass_read", "fail_read", "fail_read_then_pass", "fail_read_multi"}
@@ -61,16 +87,25 @@ OtherMts == JsonFamily \cup {"application/yaml"} \cup Forms
 (* (excluded); whether the form field text "s" is an ill-typed integer, and whether a multipart text part "4" is the    *)
 (* integer 4, are questions of property C06 (open findings there), so forms get well-typed fields only and multipart    *)
 (* string fields only.                                                                                                   *)
-Pairs(ids) == UNION {{<<id, v>> : v \in Bodies[id]} : id \in ids}
+Pairs(ids) == UNION {{<<id, v, <<>> >> : v \in Bodies[id]} : id \in ids}
+(* <<schema id, body, enc>>; enc: the array properties the media type's `encoding` declares explode: false for (one pair,   *)
+(* comma-separated) -- the default is one pair per item.  Forms may carry fields the schema does not declare (a token next *)
+(* to the declared ones: additionalProperties is open): "nothing else changes" is about them too.                           *)
 MtCases(mt) ==
    CASE mt = "application/problem+json" -> Pairs(DOMAIN Schemas)
      [] mt = "application/vnd.api+json" -> Pairs({"B1", "B5"})
      [] mt = "application/yaml" -> Pairs({"B1", "B2", "B4", "B7"})
      [] mt = "application/x-www-form-urlencoded" ->
-           {<<"B1", Obj(<<"b">>, <<St(<<"s">>)>>)>>, <<"B1", Obj(<<"a">>, <<Num(4)>>)>>, <<"B1", Obj(<<"a", "b">>, <<Num(4), St(<<"s">>)>>)>>,
-            <<"B8", Obj(<<"a">>, <<Num(4)>>)>>}      \* (B9 requires a field it does not declare: undeclared form fields are C06's)
-           \cup {<<"B12", v>> : v \in Bodies["B12"] \ {EmptyObj}}
-     [] mt = "multipart/form-data" -> {<<"B12", v>> : v \in Bodies["B12"] \ {EmptyObj}}
+           {<<"B1", Obj(<<"b">>, <<St(<<"s">>)>>), <<>> >>, <<"B1", Obj(<<"a">>, <<Num(4)>>), <<>> >>,
+            <<"B1", Obj(<<"a", "b">>, <<Num(4), St(<<"s">>)>>), <<>> >>,
+            <<"B8", Obj(<<"a">>, <<Num(4)>>), <<>> >>}      \* (B9 REQUIRES a field it does not declare: C06's)
+           \cup {<<"B12", v, <<>> >> : v \in Bodies["B12"] \ {EmptyObj}}
+           \cup {<<"B12", Obj(<<"b", "t">>, <<St(<<"s">>), St(<<"u">>)>>), <<>> >>,                       \* undeclared field t, c gets its default
+                 <<"B12", Obj(<<"b", "c", "t">>, <<St(<<"s">>), St(<<"y">>), St(<<"u">>)>>), <<>> >>}     \* undeclared field t, nothing to add
+           \cup {<<"B18", v, enc>> : v \in XBodies["B18"], enc \in {<<>>, <<"l">>}}
+     [] mt = "multipart/form-data" -> {<<"B12", v, <<>> >> : v \in Bodies["B12"] \ {EmptyObj}}
+AllSchemas == Schemas @@ XSchemas
+XCases == UNION {{<<id, v>> : v \in XBodies[id]} : id \in {"B15", "B16", "B17"}}
 
 VARIABLE case
 Init ==
@@ -83,14 +118,17 @@ Init ==
            \* pad: white space around the JSON text (a trailing newline, as curl --data-binary @file sends; indentation): part of the bytes received
            /\ (pad # "none" => ~un /\ ct = "application/json" /\ sec \in {"none", "pass_read", "fail_read"})
            /\ case = [kind |-> "body", id |-> id, schema |-> Schemas[id], v |-> v, sec |-> sec, preset |-> preset, skip |-> skip, ct |-> ct,
-                      mt |-> "application/json", unsized |-> un, pad |-> pad]
+                      mt |-> "application/json", unsized |-> un, pad |-> pad, enc |-> <<>>]
    \* mt: the media type the body is declared with and sent in -- every media type the library has a decoder for that can carry an
    \* object (the JSON family, YAML, urlencoded and multipart forms; forms carry flat objects only: MtIds).  The property speaks of
    \* "the request body", not of JSON.
    \/ \E mt \in OtherMts, sec \in {"none", "pass_read"}, preset \in BOOLEAN, skip \in BOOLEAN :
         \E iv \in MtCases(mt) : LET id == iv[1]  v == iv[2] IN
-           case = [kind |-> "body", id |-> id, schema |-> Schemas[id], v |-> v, sec |-> sec, preset |-> preset, skip |-> skip, ct |-> mt,
-                   mt |-> mt, unsized |-> FALSE, pad |-> "none"]
+           case = [kind |-> "body", id |-> id, schema |-> AllSchemas[id], v |-> v, sec |-> sec, preset |-> preset, skip |-> skip, ct |-> mt,
+                   mt |-> mt, unsized |-> FALSE, pad |-> "none", enc |-> iv[3]]
+   \/ \E iv \in XCases, sec \in {"none", "pass_read"}, preset \in BOOLEAN, skip \in BOOLEAN :
+           case = [kind |-> "body", id |-> iv[1], schema |-> AllSchemas[iv[1]], v |-> iv[2], sec |-> sec, preset |-> preset, skip |-> skip,
+                   ct |-> "application/json", mt |-> "application/json", unsized |-> FALSE, pad |-> "none", enc |-> <<>>]
    \/ \E loc \in {"query", "header", "cookie"}, shape \in {"int", "str", "arr"}, explode \in {"unset", "true", "false"},
          present \in BOOLEAN, skip \in BOOLEAN, other \in BOOLEAN :
         /\ (shape = "arr" => loc = "query")
@@ -104,7 +142,9 @@ Emit == CSVWrite("%1$s", <<ToJson(case)>>, "cases.ndjson")
 
 (* D: WithDefaults is a fixed point ("a second validation changes nothing further") and keeps   *)
 (* valid bodies valid                                                                           *)
-FixedPoint == \A id \in DOMAIN Schemas : \A v \in Bodies[id] :
-                 LET w == WithDefaults(Schemas[id], v) IN WithDefaults(Schemas[id], w) = w
+FixedPoint == /\ \A id \in DOMAIN Schemas : \A v \in Bodies[id] :
+                   LET w == WithDefaults(Schemas[id], v) IN WithDefaults(Schemas[id], w) = w
+              /\ \A id \in DOMAIN XSchemas : \A v \in XBodies[id] :
+                   LET w == WithDefaults(XSchemas[id], v) IN WithDefaults(XSchemas[id], w) = w
 ASSUME FixedPoint
 =============================================================================
